@@ -286,12 +286,13 @@ Record lstate := mkLstate {
   l_close : bool;              (* connectionClose *)
   l_continue : bool;           (* continueReadingRequest *)
   l_rdl : Z;                   (* read deadline armed on the connection (seconds, 0 = none) *)
-  l_wdl : Z }.
+  l_wdl : Z;
+  l_reqrdl : bool }.           (* requestReadDeadline: HeaderReceived armed a read deadline for the previous request only *)
 
 Definition idleTimeout (c : scfg) : Z := if sc_idleTimeout c =? 0 then sc_readTimeout c else sc_idleTimeout c.
 
 Definition linit (c : scfg) : lstate :=
-  mkLstate 0 (if sc_maxBody c <=? 0 then defaultMaxBody else sc_maxBody c) (sc_writeTimeout c) 0 false false 0 0.
+  mkLstate 0 (if sc_maxBody c <=? 0 then defaultMaxBody else sc_maxBody c) (sc_writeTimeout c) 0 false false 0 0 false.
 
 (* what the loop decided for one request *)
 Record decision := mkDec {
@@ -307,19 +308,26 @@ Record decision := mkDec {
 
 Definition set_read (d : Z) (x : lstate * list dcall) : lstate * list dcall :=
   let '(st, cs) := x in
-  (mkLstate (l_num st) (l_max st) (l_wt st) (l_prevwt st) (l_close st) (l_continue st) d (l_wdl st), (cs ++ [DRead d])%list).
+  (mkLstate (l_num st) (l_max st) (l_wt st) (l_prevwt st) (l_close st) (l_continue st) d (l_wdl st) (l_reqrdl st), (cs ++ [DRead d])%list).
 Definition set_write (d : Z) (x : lstate * list dcall) : lstate * list dcall :=
   let '(st, cs) := x in
-  (mkLstate (l_num st) (l_max st) (l_wt st) (l_prevwt st) (l_close st) (l_continue st) (l_rdl st) d, (cs ++ [DWrite d])%list).
+  (mkLstate (l_num st) (l_max st) (l_wt st) (l_prevwt st) (l_close st) (l_continue st) (l_rdl st) d (l_reqrdl st), (cs ++ [DWrite d])%list).
 
 Definition with_rdl (st : lstate) (d : Z) : lstate :=
-  mkLstate (l_num st) (l_max st) (l_wt st) (l_prevwt st) (l_close st) (l_continue st) d (l_wdl st).
+  mkLstate (l_num st) (l_max st) (l_wt st) (l_prevwt st) (l_close st) (l_continue st) d (l_wdl st) (l_reqrdl st).
 
 (* top of the loop: the read deadline for the first byte, then, once it arrived, for the rest of the head *)
+Definition clear_reqrdl (x : lstate * list dcall) : lstate * list dcall :=
+  let '(st, cs) := x in
+  (mkLstate (l_num st) (l_max st) (l_wt st) (l_prevwt st) (l_close st) (l_continue st) (l_rdl st) (l_wdl st) false, cs).
+
 Definition arm_first_byte (c : scfg) (x : lstate * list dcall) : lstate * list dcall :=
   let num := l_num (fst x) in
   let x := if num =? 1 then (if sc_readTimeout c >? 0 then set_read (sc_readTimeout c) x else x)
-           else (if idleTimeout c >? 0 then set_read (idleTimeout c) x else x) in
+           else (if idleTimeout c >? 0 then set_read (idleTimeout c) x
+                 else if l_reqrdl (fst x) then set_read 0 x      (* the previous request's own deadline must not apply to this one *)
+                 else x) in
+  let x := clear_reqrdl x in                                     (* requestReadDeadline = false *)
   if sc_readTimeout c >? 0 then set_read (sc_readTimeout c) x
   else if (sc_idleTimeout c >? 0) && (num >? 1) then set_read 0 x else x.
 
@@ -330,7 +338,7 @@ Definition header_received (c : scfg) (q : lreq) (x : lstate * list dcall) : lst
     let '(s1, cs) := x in
     let max := if q_max q >? 0 then q_max q else if sc_maxBody c >? 0 then sc_maxBody c else defaultMaxBody in
     let wt := if q_wt q >? 0 then q_wt q else sc_writeTimeout c in
-    (mkLstate (l_num s1) max wt (l_prevwt s1) (l_close s1) (l_continue s1) (l_rdl s1) (l_wdl s1), cs)
+    (mkLstate (l_num s1) max wt (l_prevwt s1) (l_close s1) (l_continue s1) (l_rdl s1) (l_wdl s1) (l_reqrdl s1 || (q_rt q >? 0)), cs)
   else x.
 
 Definition lverdict (c : scfg) (q : lreq) : option Z :=
@@ -345,19 +353,19 @@ Definition arm_write (y : lstate * list dcall) : lstate * list dcall :=
   let s4 := fst y in
   if l_wt s4 >? 0 then
     let '(s, cs) := set_write (l_wt s4) y in
-    (mkLstate (l_num s) (l_max s) (l_wt s) (l_wt s4) (l_close s) (l_continue s) (l_rdl s) (l_wdl s), cs)
+    (mkLstate (l_num s) (l_max s) (l_wt s) (l_wt s4) (l_close s) (l_continue s) (l_rdl s) (l_wdl s) (l_reqrdl s), cs)
   else if l_prevwt s4 >? 0 then
     let '(s, cs) := set_write 0 y in
-    (mkLstate (l_num s) (l_max s) (l_wt s) 0 (l_close s) (l_continue s) (l_rdl s) (l_wdl s), cs)
+    (mkLstate (l_num s) (l_max s) (l_wt s) 0 (l_close s) (l_continue s) (l_rdl s) (l_wdl s) (l_reqrdl s), cs)
   else y.
 
 Definition with_close (st : lstate) (cl cont : bool) : lstate :=
-  mkLstate (l_num st) (l_max st) (l_wt st) (l_prevwt st) cl cont (l_rdl st) (l_wdl st).
+  mkLstate (l_num st) (l_max st) (l_wt st) (l_prevwt st) cl cont (l_rdl st) (l_wdl st) (l_reqrdl st).
 
 (* one loop iteration: returns the decision and the state for the next iteration *)
 Definition lstep (c : scfg) (st0 : lstate) (q : lreq) : decision * lstate :=
   (* connRequestNum++; continueReadingRequest = true *)
-  let st := mkLstate (l_num st0 + 1) (l_max st0) (l_wt st0) (l_prevwt st0) (l_close st0) true (l_rdl st0) (l_wdl st0) in
+  let st := mkLstate (l_num st0 + 1) (l_max st0) (l_wt st0) (l_prevwt st0) (l_close st0) true (l_rdl st0) (l_wdl st0) (l_reqrdl st0) in
   let x := arm_first_byte c (st, []) in
   let rdl_head := l_rdl (fst x) in
   if negb (q_head_ok q) then
@@ -398,7 +406,7 @@ Definition lstep (c : scfg) (st0 : lstate) (q : lreq) : decision * lstate :=
    one more turn that only arms the deadline for the first byte (returned as the second component) *)
 Definition ltail (c : scfg) (st : lstate) : list dcall :=
   if l_num st + 1 =? 1 then (if sc_readTimeout c >? 0 then [DRead (sc_readTimeout c)] else [])
-  else (if idleTimeout c >? 0 then [DRead (idleTimeout c)] else []).
+  else (if idleTimeout c >? 0 then [DRead (idleTimeout c)] else if l_reqrdl st then [DRead 0] else []).
 
 Fixpoint lrun (c : scfg) (st : lstate) (qs : list lreq) : list decision * list dcall :=
   match qs with
